@@ -81,6 +81,10 @@ ThrottlePacedInv == P!ThrottlePaced(cfg, Obs)
 Settle1Inv == P!Settle1(cfg, Obs)
 Settle2Inv == P!Settle2(cfg, Obs)
 NoEarlyCloseInv == P!NoEarlyClose(cfg, Obs)
+\* liveness under weak fairness of the library's steps (no clock needed: both goroutines have a ctx.Done arm wherever they wait):
+\* cancelled and the input closed leads to "pacer and worker gone"
+FairSpec == Spec /\ WF_vars(Lib)
+EventuallyGone == (env.cancelled /\ env.closedIn /\ ~env.spend) ~> (Obs.live = 0)
 \* the bound of the statement is tight in the model: one less is violated (checked separately as a vacuity guard)
 TighterWindow == LET t == obs.gotAt IN \A j \in 1..Len(t) : Cardinality({i \in 1..Len(t) : t[j] <= t[i] /\ t[i] < t[j] + cfg.interval}) <= P!Bound(cfg) - 1
 ====
